@@ -87,6 +87,12 @@ var mutatingExtern = map[string]int{ // name -> index of the mutated argument
 	"(*container/list.List).MoveAfter": 0, "(*container/list.List).PushBackList": 0, "(*container/list.List).PushFrontList": 0,
 	"google.golang.org/protobuf/proto.Merge": 0, "google.golang.org/protobuf/proto.Reset": 0, "google.golang.org/protobuf/proto.Unmarshal": 1,
 	"(*encoding/gob.Decoder).Decode": 1,
+	// binary.ByteOrder.PutUintNN(b, v) writes into b (receiver is argument 0 of the method value)
+	"(encoding/binary.bigEndian).PutUint16": 1, "(encoding/binary.bigEndian).PutUint32": 1, "(encoding/binary.bigEndian).PutUint64": 1,
+	"(encoding/binary.littleEndian).PutUint16": 1, "(encoding/binary.littleEndian).PutUint32": 1, "(encoding/binary.littleEndian).PutUint64": 1,
+	"encoding/binary.PutUvarint": 0, "encoding/binary.PutVarint": 0,
+	"(*bytes.Buffer).Write": 0, "(*bytes.Buffer).WriteString": 0, "(*bytes.Buffer).WriteByte": 0, "(*bytes.Buffer).Reset": 0,
+	"(*strings.Builder).WriteString": 0, "(*strings.Builder).WriteByte": 0, "(*strings.Builder).Reset": 0,
 }
 
 type Fresh struct {
